@@ -15,12 +15,12 @@ import (
 
 type Clause struct {
 	Props    []string // when set (`ensures @C03 expr`): the obligation counts for these properties only
-	Optional bool // dropped (with a note) when it mentions an identifier that no longer exists
-	Kind string
-	Expr *SExpr
-	Src  string
-	File string
-	Line int
+	Optional bool     // dropped (with a note) when it mentions an identifier that no longer exists
+	Kind     string
+	Expr     *SExpr
+	Src      string
+	File     string
+	Line     int
 }
 
 type LoopSpec struct {
@@ -118,7 +118,7 @@ func newContracts() *Contracts {
 var clauseKeywords = map[string]bool{
 	"func": true, "extern": true, "pure": true, "noeffect": true, "spec": true, "ghost": true,
 	"axiom": true, "lemma": true, "requires": true, "ensures": true, "modifies": true, "loop": true,
-	"devirt": true, "wraps": true, "props": true, "assume": true, "assert": true, "trusted": true, "inline": true, "flag": true,
+	"devirt": true, "wraps": true, "props": true, "assume": true, "assert": true, "assume?": true, "assert?": true, "trusted": true, "inline": true, "flag": true,
 }
 
 type rawLine struct {
@@ -462,7 +462,7 @@ func (cs *Contracts) loadFile(file, pkgPath string) error {
 				return fmt.Errorf("%s:%d: trusted outside a func", rl.file, rl.line)
 			}
 			cur.Trusted = true
-		case "assume", "assert":
+		case "assume", "assert", "assume?", "assert?":
 			// assume @ <point> : expr
 			if cur == nil {
 				return fmt.Errorf("%s:%d: %s outside a func", rl.file, rl.line, kw)
@@ -472,10 +472,11 @@ func (cs *Contracts) loadFile(file, pkgPath string) error {
 			}
 			i := strings.Index(rest, ":")
 			pt := strings.TrimSpace(rest[1:i])
-			c, err := mkClause(kw, rest[i+1:], rl)
+			c, err := mkClause(strings.TrimSuffix(kw, "?"), rest[i+1:], rl)
 			if err != nil {
 				return err
 			}
+			c.Optional = strings.HasSuffix(kw, "?")
 			cur.Points = append(cur.Points, PointClause{pt, c})
 		}
 	}
